@@ -400,6 +400,11 @@ func nClass(s *Script) string {
 	if s.Enc != "" {
 		c += ",enc=" + s.Enc
 	}
+	for _, t := range s.Texts {
+		if t != "" {
+			c += ",text=" + textClass(t)
+		}
+	}
 	return c
 }
 
@@ -592,6 +597,7 @@ func setup(r *mon.Run) {
 		"(gRPC-web also with mixed per-message flags on a gzip stream). " +
 		"google.api.HttpBody transfers through a second proxied Mux with a 100-byte chunk limit (and the default one): uploads of 1-450 bytes with Content-Length, chunked and h2c framing, " +
 		"downloads over sizes x message sizes; oracle = byte conservation at the back-end / client. " +
+		"Hostile string values in message fields (trailing backslashes, escaped quotes, braces / brackets in strings, backslash spelled \\u005c) in the first / middle / last message of client-streaming and bidi calls on the JSON fronts. " +
 		"Compression values: absent, gzip, identity announced explicitly (gRPC, gRPC-web). " +
 		"Each script runs twice (direct / through larking); distinct = front x shape x plan family x message count x outcome x half-close-seen x metadata class."
 	r.Floor = 40
